@@ -151,7 +151,7 @@ PB_DECL_RW = [Rw("R2", r"Arc<Mutex<BarState>>", "BarState"), Rw("R2", r"Arc<Atom
 PB_SIG = [Rw("R2", r"&self", "&mut self", count=None), Rw("R15", r"impl Into<Cow<'static, str>>", "String", count=None)]
 PB_SIG_VAL = [Rw("R15", r"impl Into<Cow<'static, str>>", "String", count=None), Rw("R18", r"\(self,", "(mut self,")]
 PB_BODY = [Rw("R2", r"let mut state = self\.state\(\);", "let state = &mut self.state;", count=None),
-           Rw("R15", r"\.into\(\)", "", count=None)]
+           Rw("R15", r"\.into\(\)", "", count="any")]
 TO_STRING = Rw("R5", r"(self\.state\.state\.\w+\.expanded\(\))\.to_string\(\)", r"to_owned_string(\1)")
 DROP_GUARD = Rw("R9", r"drop\(state\);", "", count=1)
 
